@@ -20,12 +20,13 @@ from harness.c06_histogram import cut
 
 PROPERTY = "C04"
 B = h.bounds(
-    quick=dict(FLOW=3, BUF=3, HIST=4, SRC=1),
-    thorough=dict(FLOW=3, BUF=3, HIST=5, SRC=3),
+    quick=dict(FLOW=3, BUF=3, HIST=4, SRC=1, SFLOW=2, SBUF=2),
+    thorough=dict(FLOW=3, BUF=3, HIST=5, SRC=3, SFLOW=3, SBUF=3),
 )
 BRANCHES = ["user mutator (data list + context in place)", "Variable", "UpdateContext", "MakeFilename",
             "fill/compute: (mutator, StoreFilled)", "fill/compute: (Count as FillInto, StoreFilled)",
-            "fill/compute that stops mid-buffer: (mutator, Slice(1), StoreFilled)"]
+            "fill/compute that stops mid-buffer: (mutator, Slice(1), StoreFilled)",
+            "(UpdateContext(p, {{missing}}, default=<one dict shared by all such branches>), in-place updates of p)"]
 ACCS = ["Sum", "DSum", "Mean", "VarianceMeanCount", "Vectorize(Sum,2)", "Count", "Histogram",
         "SplitIntoBins(Sum, Variable, [0,1,2])", "Vectorize of components yielding two results per compute"]
 BOUNDS = dict(vars(B), branches=BRANCHES, accumulators=ACCS, meaning="pairs of branches from "
@@ -61,7 +62,18 @@ def _first(d):
     return d[0]
 
 
+_SHARED = [None]
+
+
 def make_branch(kind, t):
+    if kind == 7:
+        # every branch of this kind was given the *same* default object by the
+        # user; the first element inserts it where the key is missing, the
+        # second one updates it in place
+        if _SHARED[0] is None:
+            _SHARED[0] = {"c": 0, "n": {"m": [0]}}
+        return (UpdateContext("p", "{{nokey}}", value=True, default=_SHARED[0]),
+                UpdateContext("p.c", t), UpdateContext("p.n.m", t))
     if kind == 0:
         return (Mut(t),)
     if kind == 1:
@@ -86,8 +98,10 @@ def alone(kind, t, flow, bufsize):
     """What the branch computes alone on a private deep copy of the flow,
     block by block (sequence branches) / at the end (fill/compute)."""
     flow = copy.deepcopy(flow)
+    _SHARED[0] = None            # the reference branch has a default of its own
     br = make_branch(kind, t)
-    if kind >= 4:
+    _SHARED[0] = None
+    if kind >= 4 and kind != 7:
         fcs = FillComputeSeq(*br)
         for v in flow:
             try:
@@ -140,15 +154,16 @@ class _SrcGen(object):
 
 def check_split_run(k0: int, k1: int, k2: int, src: int, bufsize: int, xs: List[int]) -> bool:
     """
-    pre: 0 <= k0 <= 6 and 0 <= k1 <= 6 and -1 <= k2 <= 1
+    pre: 0 <= k0 <= 7 and 0 <= k1 <= 7 and -1 <= k2 <= 1
     pre: -1 <= src <= B.SRC
-    pre: 1 <= bufsize <= B.BUF
-    pre: len(xs) <= B.FLOW
-    pre: h.in_shard(k0 + 7 * (k1 % 4) + 28 * (src + 1))
+    pre: 1 <= bufsize <= B.SBUF
+    pre: len(xs) <= B.SFLOW
+    pre: h.in_shard(k0 + 8 * (k1 % 4) + 32 * (src + 1))
     post: _
     """
-    k0 = h.concrete(k0, 0, 6)
-    k1 = h.concrete(k1, 0, 6)
+    _SHARED[0] = None
+    k0 = h.concrete(k0, 0, 7)
+    k1 = h.concrete(k1, 0, 7)
     k2 = h.concrete(k2, -1, 1)       # optional third branch: none | mutator | Variable
     kinds = [k0, k1] + ([k2] if k2 >= 0 else [])
     # optional Source branch at position src (a Source reads nothing from the
@@ -185,27 +200,41 @@ def check_split_run(k0: int, k1: int, k2: int, src: int, bufsize: int, xs: List[
     return h.ok(got == want)
 
 
-def check_split_fill(k0: int, k1: int, zip_: bool, xs: List[int]) -> bool:
+def check_split_fill(k0: int, k1: int, k2: int, zip_: bool, xs: List[int]) -> bool:
     """
-    pre: 4 <= k0 <= 5 and 4 <= k1 <= 5
+    pre: 4 <= k0 <= 5 and 4 <= k1 <= 5 and 3 <= k2 <= 5
     pre: len(xs) <= B.FLOW
+    pre: h.in_shard(k2)
     post: _
     """
-    # Split / Zip of fill/compute branches driven by fill + compute
+    # Split / Zip of two or three fill/compute branches driven by fill + compute
     k0 = h.concrete(k0, 4, 5)
     k1 = h.concrete(k1, 4, 5)
+    k2 = h.concrete(k2, 3, 5)        # 3: no third branch
     flow = mkflow(xs)
+    brs = [make_branch(k0, 0), make_branch(k1, 1)] + ([make_branch(k2, 2)] if k2 >= 4 else [])
     if zip_:
-        s = Zip([make_branch(k0, 0), make_branch(k1, 1)])
+        s = Zip(brs)
     else:
-        s = Split([make_branch(k0, 0), make_branch(k1, 1)])
+        s = Split(brs)
     for v in flow:
         s.fill(v)
     got = list(s.compute())
     _, c0 = alone(k0, 0, mkflow(xs), 1)
     _, c1 = alone(k1, 1, mkflow(xs), 1)
+    c2 = alone(k2, 2, mkflow(xs), 1)[1] if k2 >= 4 else []
     if not zip_:
-        return h.ok(got == c0 + c1)
+        return h.ok(got == c0 + c1 + c2)
+    if k2 >= 4:
+        # three-way Zip: tuples of the i-th results
+        if len(got) != min(len(c0), len(c1), len(c2)):
+            return h.ok(False)
+        for i, g in enumerate(got):
+            data, _ = get_data_context(g)
+            want = (get_data_context(c0[i])[0], get_data_context(c1[i])[0], get_data_context(c2[i])[0])
+            if tuple(data) != want:
+                return h.ok(False)
+        return h.ok(True)
     # Zip yields tuples of the i-th results; data parts must be the branches'
     # own results
     if len(got) != min(len(c0), len(c1)):
@@ -245,6 +274,9 @@ class TwoRes(object):
 def make_acc(kind):
     if kind == 8:
         return Vectorize([TwoRes(), TwoRes()])
+    if kind == 9:
+        # two histograms per compute(): their contexts must not share anything
+        return SplitIntoBins(TwoRes(), Variable("x", _x), [0, 1, 2])
     if kind == 0:
         return Sum()
     if kind == 1:
@@ -301,13 +333,13 @@ def ctx_of(results):
 
 def check_accumulator(kind: int, ops: List[int], cs: List[int]) -> bool:
     """
-    pre: 0 <= kind <= 8
+    pre: 0 <= kind <= 9
     pre: 1 <= len(ops) <= B.HIST
     pre: len(cs) == len(ops)
-    pre: h.in_shard(kind + 9 * (len(ops) % 2))
+    pre: h.in_shard(kind + 10 * (len(ops) % 2))
     post: _
     """
-    kind = h.concrete(kind, 0, 8)
+    kind = h.concrete(kind, 0, 9)
     with cut():
         el = make_acc(kind)
         twin = make_acc(kind)        # same fills, never poisoned
@@ -366,14 +398,15 @@ def check_accumulator(kind: int, ops: List[int], cs: List[int]) -> bool:
 
 
 CONDITIONS = [
-    dict(fn="check_split_run", shards=(84, 140), budget=(120, 600),
+    dict(fn="check_split_run", shards=(48, 160), budget=(120, 600),
          smoke=["check_split_run(0, 1, -1, -1, 1, [3, 4])", "check_split_run(4, 0, -1, -1, 2, [3, 4])",
                 "check_split_run(5, 3, 0, -1, 2, [3])", "check_split_run(2, 2, -1, -1, 1, [])", "check_split_run(6, 0, 1, -1, 2, [3, 4])",
-                "check_split_run(6, 4, 0, -1, 3, [3, 4, 5])", "check_split_run(0, 1, -1, 0, 1, [3, 4])",
+                "check_split_run(6, 4, 0, -1, 2, [3, 4])", "check_split_run(7, 7, -1, -1, 1, [3, 4])", "check_split_run(0, 1, -1, 0, 1, [3, 4])",
                 "check_split_run(0, 0, 1, 1, 1, [3, 4])", "check_split_run(1, 0, -1, 1, 1, [3, 4])", "check_split_run(0, 2, -1, 1, 2, [])"]),
-    dict(fn="check_split_fill", budget=(70, 600),
-         smoke=["check_split_fill(4, 5, False, [3, 4])", "check_split_fill(4, 4, True, [3, 4])"]),
-    dict(fn="check_accumulator", shards=(18, 18), budget=(190, 1500),
+    dict(fn="check_split_fill", shards=(3, 3), budget=(120, 600),
+         smoke=["check_split_fill(4, 5, 3, False, [3, 4])", "check_split_fill(4, 4, 3, True, [3, 4])",
+                "check_split_fill(4, 5, 4, False, [3, 4])", "check_split_fill(4, 4, 5, True, [3, 4])"]),
+    dict(fn="check_accumulator", shards=(20, 20), budget=(190, 1500),
          smoke=["check_accumulator(0, [0, 1, 0, 1], [0, 0, 1, 0])", "check_accumulator(5, [0, 1, 1], [1, 0, 0])",
                 "check_accumulator(7, [0, 0, 1], [0, 1, 0])", "check_accumulator(4, [0, 1], [2, 0])",
                 "check_accumulator(1, [0, 1], [2, 0])", "check_accumulator(2, [0, 1], [2, 0])", "check_accumulator(8, [0, 1, 1], [0, 0, 0])"]),
